@@ -87,3 +87,21 @@ Proof. reflexivity. Qed.
 (* a vector compared with the initial scalar nan never converges unless it is empty *)
 Theorem fresh_unit_needs_two_iterations p v : v <> [] -> close p SNan v = VFalse.
 Proof. destruct v; [congruence | reflexivity]. Qed.
+
+(* every solve starts from the scalar nan: 'Finished after k iterations' needs two iterates OF THIS SOLVE, the (k-1)-th and the k-th,
+   that pass the relative test (an empty result vector is the only exception: a unit without persisted numeric results) *)
+Theorem solve_converged_needs_two_iterates p maxit script k st n :
+  solve p maxit SNan script = (Converged k, st, n) ->
+  (exists cur, nth_error script (k - 1) = Some (IVec cur) /\
+     ((k = 1%nat /\ cur = []) \/
+      (2 <= k /\ exists prev, nth_error script (k - 2) = Some (IVec prev) /\ close p (SVec prev) cur = VTrue /\ st = SVec prev)%nat)).
+Proof.
+  unfold solve. intro H. destruct (converged_sound p _ _ _ _ _ _ _ H) as [cur [prev [R [N [P [C [S1 S2]]]]]]].
+  exists cur. split; [exact N|].
+  destruct (k - 1)%nat as [|m] eqn:M.
+  - left. cbn [prev_of] in P. inversion P as [P']. split; [lia|].
+    destruct cur as [|c0 cs]; [reflexivity|]. exfalso. rewrite <- P' in C. cbn [close] in C. discriminate C.
+  - right. split; [lia|]. cbn [prev_of] in P. replace (k - 2)%nat with m by lia.
+    destruct (nth_error script m) as [[v|]|] eqn:E; try discriminate. inversion P as [P']. subst prev.
+    exists v. repeat split; congruence.
+Qed.
